@@ -586,7 +586,7 @@ class RawVoltageBackend(object):
                obs_length=None, 
                num_blocks=None,
                length_mode='obs_length',
-               header_dict={},
+               header_dict=None,
                digitize=True,
                load_template=True,
                verbose=True):
@@ -640,6 +640,10 @@ class RawVoltageBackend(object):
             
         self.obs_length = self.num_blocks * self.time_per_block
         self.total_obs_num_samples = self.num_blocks * self.samples_per_block * self.num_branches
+        
+        # Work on a copy, so that neither the caller's dictionary nor a default
+        # shared between calls carries header values over to later recordings
+        header_dict = dict(header_dict) if header_dict is not None else {}
         
         if load_template:
             header_dict = self._header_add_from_template(header_dict)
